@@ -338,18 +338,19 @@ def dynamicPinned (dflt ty : Str) : Bool :=
 
 /-! ## `validate_pyxform_reference_syntax` (token loop, pyxform_reference.py 31-60) -/
 
-/-- `open_` = a `PYXFORM_REF_START` is pending -/
-def refLoop : Bool → List (String × Str) → Bool
-  | open_, [] => !open_
-  | false, (n, _) :: rest => refLoop (n == "PYXFORM_REF_START") rest
-  | true, (n, _) :: rest =>
-    if n == "NAME" then refLoop true rest
-    else if n == "PYXFORM_REF_END" then refLoop false rest
+/-- state: `none` = no `${` pending; `some seen` = a `PYXFORM_REF_START` is pending and `seen` says
+    whether a NAME token followed it (an empty `${}` is malformed) -/
+def refLoop : Option Bool → List (String × Str) → Bool
+  | st, [] => st.isNone
+  | none, (n, _) :: rest => refLoop (if n == "PYXFORM_REF_START" then some false else none) rest
+  | some seen, (n, _) :: rest =>
+    if n == "NAME" then refLoop (some true) rest
+    else if n == "PYXFORM_REF_END" && seen then refLoop none rest
     else false
 
 /-- does the cell pass the reference-syntax check? (cells of length ≤ 2 or without `${` always do) -/
 def refSyntaxOk (v : Str) : Option Bool :=
   if v.length ≤ 2 || !isInfix ['$', '{'] v then some true
-  else activeRules.map fun rules => refLoop false (scanWith rules v).1
+  else activeRules.map fun rules => refLoop none (scanWith rules v).1
 
 end Pyxv.Lexer
